@@ -115,7 +115,7 @@ type Group struct {
 	Body   string `json:"body,omitempty"` // ctx: label of the HTTP answer
 	Test   bool   `json:"test,omitempty"`
 	Arity  int    `json:"arity,omitempty"`
-	Alpha  string `json:"alpha,omitempty"`  // full | core | mini
+	Alpha  string `json:"alpha,omitempty"`  // full | core | mini | case | casecore (see casefold.go)
 	Danger bool   `json:"danger,omitempty"` // the part whose cases are predicted dangerous
 	Len    int    `json:"len,omitempty"`    // chars: length; tokens: number of tokens
 	Prefix int    `json:"prefix"`           // chars/tokens: index of the fixed prefix, -1 = none
@@ -161,8 +161,12 @@ type tupler struct {
 
 func newTupler(g Group) *tupler {
 	b, h := split(g.alphaIDs())
+	if g.caseAlpha() {
+		// sub-space (vi): every tuple with at least one case value, the rest from the companions
+		b, h = caseSplit(g.Alpha)
+	}
 	t := &tupler{n: g.Arity, benign: b, huge: h}
-	if !g.Danger {
+	if !g.Danger && !g.caseAlpha() {
 		t.total = ipow(len(b), g.Arity)
 		return t
 	}
@@ -422,9 +426,17 @@ func Groups(tier string) []Group {
 			}
 			addTuples("call", fn.Name, fn.Test, arity, alpha)
 		}
+		for arity := 1; arity <= CaseMaxArity(tier); arity++ {
+			alpha := "case"
+			if arity == CaseMaxArity(tier) {
+				alpha = "casecore"
+			}
+			gs = append(gs, Group{Kind: "call", Name: fn.Name, Test: fn.Test, Arity: arity, Alpha: alpha, Prefix: -1})
+		}
 	}
 	for _, f := range Forms {
 		addTuples("form", f.Expr, false, f.Arity, "full")
+		gs = append(gs, Group{Kind: "form", Name: f.Expr, Arity: f.Arity, Alpha: "case", Prefix: -1})
 	}
 	for p := 0; p < XExpParts; p++ {
 		gs = append(gs, Group{Kind: "xexp", Danger: true, Part: p, Parts: XExpParts, Prefix: -1})
